@@ -41,8 +41,9 @@ LEVEL = "exploration"
 TECHNIQUE = "model-based history testing (bounded exhaustive gap/kind enumeration + Hypothesis histories) of real Switch/BinarySensor on a virtual-time loop vs reference timer/counter model"
 RULE = (
     "case = (device kind: switch | binary sensor with reset_after | with context_timeout | with both, thresholds from {0.5,1,2.5} s, invert, ignore_internal_state, "
+    "address layout: single address | command + state + passive addresses (each telegram delivered on any of the device's addresses), "
     "injection mode: through cEMI+telegram queue or Device.process directly, history of [gap, settle, on/off write/response, settle] steps); "
-    "all histories of up to 3 (quick) / 4 (thorough) telegrams with gaps from {0, thr/2, thr-1/64, thr, thr+1/64, 2*thr} are enumerated per configuration, longer ones (<= 10 telegrams) sampled; "
+    "all histories of up to 3 (quick) / 4 (thorough) telegrams with gaps from {0, thr/2, thr-1/64, thr, thr+1/64, 2*thr} are enumerated per configuration, for the multi-address Switch up to 3 telegrams over {on@command, on@state, on@passive, off@state}; longer ones (<= 10 telegrams) sampled; "
     "non-trivial = at least two telegrams with some inter-arrival gap <= threshold + 1/64 s (a timer restart, a burst, a boundary or an exact tie is exercised); distinct by case"
 )
 LEVEL_TEXT = "Generated on/off telegram histories are run against the real devices in virtual time; state samples, device callbacks, counter values and the reset telegrams on a recording interface are compared with a reference timer/counter model written from the property statement."
@@ -53,11 +54,16 @@ ASSUMPTIONS = [
     "an 'off' telegram before the deadline: the statement does not say whether the timer is cancelled; a redundant 'off' report at last-'on' + reset_after is tolerated (counted in notes), a missing one too",
     "BinarySensor is driven with GroupValueWrite telegrams only: it deliberately ignores a GroupValueResponse that does not change the value last seen on the bus (so an 'on' response after a timed reset neither sets the state nor starts the timer) and the statement is silent on state-sync answers; Switch is driven with writes and responses",
     "mixed-state bursts and devices with both reset_after and context_timeout: only report timing (both reports at the close instant, second with counter 0), state samples and absence of exceptions are asserted",
+    "every 'on' telegram the device processes restarts the reset timer, whatever address of the device (command, state, passive) it arrived on; the Switch's own reset telegram goes to its command address",
     "rate limit 0; sync_state off (no GroupValueRead traffic); device driven either through the cEMI receive path + telegram queue or by Device.process() directly (as xknx.devices.process and the unit tests do)",
 ]
 
 TICK = 1.0 / 64
 GA = "1/2/3"
+# multi-address layout: index of the address a telegram is delivered on
+#   Switch: 0 command address, 1 state address, 2 passive of group_address, 3 passive of group_address_state
+#   BinarySensor: 0 state address, 1 passive of group_address_state
+ADDRS = {"switch": ["1/2/3", "1/2/4", "1/2/5", "1/2/6"], "bs": ["1/2/3", "1/2/5"]}
 THRESHOLDS = [32, 64, 160]
 DEVS = ["switch", "bs_reset", "bs_ctx", "bs_both"]
 KINDS = ["on", "off", "ron", "roff"]
@@ -71,7 +77,7 @@ def _events(case):
     """Telegram events (t_ticks, on, is_write, seq) and sample points from the data."""
     t = 0
     ev = []
-    for i, (gap, _sa, kind, _sb) in enumerate(case["steps"]):
+    for i, (gap, _sa, kind, _sb, *_ai) in enumerate(case["steps"]):
         t += gap
         ev.append((t, kind in ("on", "ron"), kind in ("on", "off"), i))
     return ev
@@ -98,13 +104,24 @@ def execute(case):
         h = await XH.create(loop, rate_limit=0)
         h.connect()
         kind = case["dev"]
+        multi = case.get("addrs") == "multi"
+        addr_pool = (ADDRS["switch"] if kind == "switch" else ADDRS["bs"]) if multi else [GA]
         if kind == "switch":
-            dev = Switch(h.xknx, "dut", group_address=GA, sync_state=False, invert=inv, reset_after=R * TICK)
+            a = ADDRS["switch"]
+            dev = Switch(
+                h.xknx,
+                "dut",
+                group_address=[a[0], a[2]] if multi else GA,
+                group_address_state=[a[1], a[3]] if multi else None,
+                sync_state=False,
+                invert=inv,
+                reset_after=R * TICK,
+            )
         else:
             dev = BinarySensor(
                 h.xknx,
                 "dut",
-                group_address_state=GA,
+                group_address_state=ADDRS["bs"] if multi else GA,
                 sync_state=False,
                 invert=inv,
                 ignore_internal_state=bool(case.get("iis")),
@@ -120,7 +137,8 @@ def execute(case):
             obs["samples"].append((i, loop.time(), dev.state, getattr(dev, "counter", None)))
 
         now = 0
-        for i, (gap, settle_a, k, settle_b) in enumerate(case["steps"]):
+        for i, (gap, settle_a, k, settle_b, *ai) in enumerate(case["steps"]):
+            dest = addr_pool[(ai[0] if ai else 0) % len(addr_pool)]
             if gap:
                 await asyncio.sleep(gap * TICK)
                 now += gap
@@ -131,7 +149,7 @@ def execute(case):
             on = k in ("on", "ron")
             value = DPTBinary(int(on != inv))
             payload = GroupValueWrite(value) if k in ("on", "off") else GroupValueResponse(value)
-            tg = Telegram(destination_address=GroupAddress(GA), payload=payload, source_address=IndividualAddress("1.1.5"), direction=TelegramDirection.INCOMING)
+            tg = Telegram(destination_address=GroupAddress(dest), payload=payload, source_address=IndividualAddress("1.1.5"), direction=TelegramDirection.INCOMING)
             if case["mode"] == "bus":
                 h.inject_ind(tg)
             else:
@@ -353,6 +371,10 @@ def classify(case):
     ths = [x for x in (case.get("R"), case.get("T")) if x]
     gaps = [b[0] - a[0] for a, b in zip(events, events[1:])]
     cls = [case["dev"], case["mode"]]
+    if case.get("addrs") == "multi":
+        cls.append("multi-address")
+        if any(len(stp) > 4 and stp[4] for stp in case["steps"]):
+            cls.append("telegram-on-state/passive-address")
     nontrivial = False
     for g in gaps:
         for th in ths:
@@ -399,11 +421,15 @@ def _gapset(th):
     return [0, th // 2, th - 1, th, th + 1, 2 * th]
 
 
-def _enum_shard(ctx, dev, mode, Lmax) -> None:
+def _enum_shard(ctx, dev, mode, Lmax, addrs="single") -> None:
     th = 64
     cfg = _config(dev, th, 32, False, False, mode)
     gaps = _gapset(th)
-    kinds = ["on", "off"]
+    kinds = [("on", 0), ("off", 0)]
+    if addrs == "multi":
+        # 'on' on the command / state / a passive address, 'off' on the state address
+        cfg["addrs"] = "multi"
+        kinds = [("on", 0), ("on", 1), ("on", 3 if dev == "switch" else 1), ("off", 1)]
     # settle flags: the bus mode settles after every step (deadline served before a tie),
     # the direct mode never settles between steps (telegram served before a tie)
     s = mode == "bus"
@@ -411,14 +437,14 @@ def _enum_shard(ctx, dev, mode, Lmax) -> None:
         n = nt = 0
         for gs in itertools.product(gaps, repeat=L - 1):
             for ks in itertools.product(kinds, repeat=L):
-                case = dict(cfg, steps=[[g, s, k, s] for g, k in zip((0, *gs), ks)])
+                case = dict(cfg, steps=[[g, s, k, s, ai] for g, (k, ai) in zip((0, *gs), ks)])
                 check_case(ctx, case)
                 n += 1
                 if classify(case)[0]:
                     nt += 1
                 if n % 197 == 1:
                     ctx.sample(case)
-        ctx.bulk(n, nt, f"enum-{dev}-{mode}-L{L}")
+        ctx.bulk(n, nt, f"enum-{dev}-{mode}-{addrs}-L{L}")
 
 
 @st.composite
@@ -438,6 +464,12 @@ def cases(draw):
         gap = 0 if i == 0 else draw(st.sampled_from(gapvals))
         steps.append([gap, draw(st.booleans()), draw(st.sampled_from(kinds)), draw(st.booleans())])
     cfg["steps"] = steps
+    if draw(st.booleans()):
+        # several group addresses: telegrams arrive on the command, state or a passive address
+        cfg["addrs"] = "multi"
+        na = len(ADDRS["switch" if dev == "switch" else "bs"])
+        for stp in steps:
+            stp.append(draw(st.integers(0, na - 1)))
     return cfg
 
 
@@ -463,7 +495,9 @@ def _procs(want: int = 8) -> int:
 
 def run(ctx) -> None:
     Lmax = ctx.n(3, 4)
-    parallel(ctx, _enum_shard, [(dev, mode, Lmax) for dev in DEVS for mode in ("bus", "direct")], procs=_procs())
+    jobs = [(dev, mode, Lmax) for dev in DEVS for mode in ("bus", "direct")]
+    jobs += [("switch", mode, 3, "multi") for mode in ("bus", "direct")]
+    parallel(ctx, _enum_shard, jobs, procs=_procs())
     parallel(ctx, _hyp_shard, [(ctx.n(300, 4000),)] * 8, procs=_procs())
     ctx.notes["exhaustive_up_to_telegrams"] = Lmax
     ctx.exhaustive = False
